@@ -506,13 +506,7 @@ static int addLeaf(KSI_TreeBuilder *builder, KSI_DataHash *hsh, KSI_MetaData *me
 		goto cleanup;
 	}
 
-	/* Insert the leaf. */
-	res = processAndInsertNode(builder, node);
-	if (res != KSI_OK) {
-		KSI_pushError(builder->ctx, res, NULL);
-		goto cleanup;
-	}
-
+	/* Create the handle before the node is handed over to the builder: nothing may fail after the insertion. */
 	if (leaf != NULL) {
 		tmp = KSI_new(KSI_TreeLeafHandle);
 		if (tmp == NULL) {
@@ -523,7 +517,16 @@ static int addLeaf(KSI_TreeBuilder *builder, KSI_DataHash *hsh, KSI_MetaData *me
 		tmp->pBuilder = builder;
 		tmp->leafNode = node;
 		tmp->ref = 1;
+	}
 
+	/* Insert the leaf. */
+	res = processAndInsertNode(builder, node);
+	if (res != KSI_OK) {
+		KSI_pushError(builder->ctx, res, NULL);
+		goto cleanup;
+	}
+
+	if (leaf != NULL) {
 		*leaf = tmp;
 		tmp = NULL;
 	}
